@@ -256,9 +256,18 @@ pub fn check_strings(c: &StrCase, st: &mut Stats) -> Result<(), String> {
         let _ = (n.is_nonce_cookie(), n.security_features().is_ok());
     }
     let _ = HMACKey::new_short_term(s).map(|k| (k.as_bytes().len(), k.credential_mechanism()));
-    for alg in [AlgorithmId::MD5, AlgorithmId::SHA256, AlgorithmId::Reserved, AlgorithmId::Unassigned(c.code)] {
+    for alg in [
+        AlgorithmId::MD5,
+        AlgorithmId::SHA256,
+        AlgorithmId::Reserved,
+        AlgorithmId::Unassigned(c.code),
+        // the public variant can also spell the assigned numbers: no panic, whatever the constructor decides
+        AlgorithmId::Unassigned(0),
+        AlgorithmId::Unassigned(1),
+        AlgorithmId::Unassigned(2),
+    ] {
         let r = HMACKey::new_long_term(s, t, s, Algorithm::from(alg));
-        if matches!(alg, AlgorithmId::Reserved | AlgorithmId::Unassigned(_)) && c.code > 2 && r.is_ok() {
+        if matches!(alg, AlgorithmId::Reserved | AlgorithmId::Unassigned(3..)) && c.code > 2 && r.is_ok() {
             return Err(format!("HMACKey::new_long_term accepted algorithm {:?}", alg));
         }
         let _ = r.map(|k| (k.as_bytes().len(), k.credential_mechanism().is_long_term()));
